@@ -210,10 +210,11 @@ class _PythonFnFactory(object):
     # The lint override is a false positive.
     new_fn = bound_factory(**self._extra_locals)  # pylint:disable=not-callable
 
-    if defaults:
-      new_fn.__defaults__ = defaults
-    if kwdefaults:
-      new_fn.__kwdefaults__ = kwdefaults
+    # Note: the factory may have been created for another function that shares
+    # the code object but not the defaults. The placeholder defaults of the
+    # generated code must never leak, so they are always replaced.
+    new_fn.__defaults__ = defaults
+    new_fn.__kwdefaults__ = kwdefaults
 
     return new_fn
 
